@@ -755,6 +755,7 @@ def c35(run):
 
 @check("C03")
 def c03(run):
+    run.mc_leg("mc_grammar", "MC_Grammar", "MC_Grammar.cfg", workers=16, timeout=1800)
     run.rec_leg("parse", ["parse"], spec="TV_Parse", cfg="TV_Parse.cfg",
                 verdict=["panic", "stmts-written", "spans", "layout-image", "unknown-event"])
     return run.finish(
@@ -771,6 +772,7 @@ def c03(run):
 
 @check("C05")
 def c05(run):
+    run.mc_leg("mc_grammar", "MC_Grammar", "MC_Grammar.cfg", workers=16, timeout=1800)
     if run.tier == "thorough":
         run.exhaustive = True
         lo = -70000
@@ -794,6 +796,7 @@ def c05(run):
 
 @check("C36")
 def c36(run):
+    run.mc_leg("mc_grammar", "MC_Grammar", "MC_Grammar.cfg", workers=16, timeout=1800)
     run.rec_leg("print", ["print"], spec="TV_Parse", cfg="TV_Parse.cfg", verdict=["panic", "reparse", "unknown-event"])
     return run.finish(
         rule="every statement obtained by parsing generated programs (all opcodes, aliases, directives, several labels, "
